@@ -141,7 +141,8 @@ fn exec_cmd(args: &[String]) {
                 _ => exec::Mode::Jitter(r.next()),
             }
         };
-        let c = exec::ExecCase { map, pool, mode, calls, faults, regs };
+        let next = if gen == "faults" { ['d', 'd', 'p', 's'][r.below(4) as usize] } else { 'd' };
+        let c = exec::ExecCase { map, pool, mode, calls, faults, next, regs };
         let obs = exec::observe(&c, &mut env);
         writeln!(out, "{} :: {}\t{}", c.head(), prog::to_text(&c.regs), obs).unwrap();
     }
